@@ -245,15 +245,6 @@ theorem merge_ea {self other : Mol} (hs : self.Inv) (ho : other.Inv) (hse : self
 theorem merge_inve {self other : Mol} (hs : self.InvE) (ho : other.InvE) : (self.merge other).1.InvE :=
   ⟨merge_inv hs.1 ho.1, merge_ea hs.1 ho.1 hs.2 ho.2⟩
 
-theorem selfMerge_ea {m : Mol} (h : m.Inv) (he : m.EaOk) : m.selfMerge.1.EaOk := by
-  unfold Mol.selfMerge
-  split
-  · exact merge_ea h h he he
-  · split
-    · exact merge_ea h h he he
-    · rw [mergeOffs_eq h.2]; exact he
-  · rw [mergeOffs_eq h.2]; exact he
-
 /-! ### Block.to_molecule -/
 
 /-- every attribute dict of the block belongs to a bond of the block (true of every real block:
@@ -500,21 +491,23 @@ theorem step_ea {p : Pool} (h : PoolInvE p) (op : Op) (hb : op.blockOk = true) :
       | some s => exact append_ea h _ (subgraph_ea (h m0 (List.mem_of_getElem? hm)).2 ks s hs)
   | merge i j =>
     simp only [step]
-    split
-    · exact onMol_ea h i _ (fun m hm => selfMerge_ea hm.1 hm.2)
-    · cases ha : p[i]? with
+    cases ha : p[i]? with
+    | none => exact fun m hmem => (h m hmem).2
+    | some a =>
+      cases hb' : mergeOperand p i j with
       | none => exact fun m hmem => (h m hmem).2
-      | some a =>
-        cases hb' : p[j]? with
-        | none => exact fun m hmem => (h m hmem).2
-        | some b =>
-          intro m hmem
-          have hmem' : m ∈ p.set i (a.merge b).1 := hmem
-          rcases List.mem_or_eq_of_mem_set hmem' with hx | rfl
-          · exact (h m hx).2
-          · have h1 := h a (List.mem_of_getElem? ha)
-            have h2 := h b (List.mem_of_getElem? hb')
-            exact merge_ea h1.1 h2.1 h1.2 h2.2
+      | some b =>
+        intro m hmem
+        have hmem' : m ∈ p.set i (a.merge b).1 := hmem
+        rcases List.mem_or_eq_of_mem_set hmem' with hx | rfl
+        · exact (h m hx).2
+        · have h1 := h a (List.mem_of_getElem? ha)
+          have h2 : b.InvE := by
+            unfold mergeOperand at hb'
+            split at hb'
+            · rw [ha] at hb'; cases hb'; exact ⟨copy_inv h1.1, copy_ea h1.2⟩
+            · exact h b (List.mem_of_getElem? hb')
+          exact merge_ea h1.1 h2.1 h1.2 h2.2
   | newMol n ff => exact append_ea h _ (fun x hx => by cases hx)
   | fromBlock b ao ro co =>
     simp only [Op.blockOk, decide_eq_true_eq] at hb
@@ -526,19 +519,15 @@ theorem step_ea {p : Pool} (h : PoolInvE p) (op : Op) (hb : op.blockOk = true) :
     | error e => exact fun m hmem => (h m hmem).2
     | ok b => exact fromBlockStep_ea h b (Block.build_ea hb steps hbld) ao ro co
 
-theorem step_inve {p : Pool} (h : PoolInvE p) (op : Op) (hs : op.safe p = true) (hb : op.blockOk = true) :
+theorem step_inve {p : Pool} (h : PoolInvE p) (op : Op) (hb : op.blockOk = true) :
     PoolInvE (step p op).1 :=
-  poolInvE_of (step_inv (poolInvE_inv h) op hs) (step_ea h op hb)
+  poolInvE_of (step_inv (poolInvE_inv h) op) (step_ea h op hb)
 
-/-- a history in which every step is safe where it is applied and every block argument is consistent -/
-def SafeRunE (p : Pool) (ops : List Op) : Bool := SafeRun p ops && ops.all Op.blockOk
-
-theorem run_inve {p : Pool} (h : PoolInvE p) (ops : List Op) (hs : SafeRun p ops = true)
+theorem run_inve {p : Pool} (h : PoolInvE p) (ops : List Op)
     (hb : ∀ op ∈ ops, op.blockOk = true) : PoolInvE (run p ops) := by
   induction ops generalizing p with
   | nil => exact h
   | cons o t ih =>
-    simp only [SafeRun, Bool.and_eq_true] at hs
-    exact ih (step_inve h o hs.1 (hb o List.mem_cons_self)) hs.2 (fun op hop => hb op (List.mem_cons_of_mem _ hop))
+    exact ih (step_inve h o (hb o List.mem_cons_self)) (fun op hop => hb op (List.mem_cons_of_mem _ hop))
 
 end C12
